@@ -115,7 +115,7 @@ static PCondVariable *volatile f_cv; static volatile int f_round, f_done, f_flag
 static void *fresh_waiter (void *arg) {
 	int r = 0; (void) arg;
 	for (;;) {
-		while (__atomic_load_n (&f_round, __ATOMIC_SEQ_CST) == r && !f_quit) ;
+		{ int sp_ = 0; while (__atomic_load_n (&f_round, __ATOMIC_SEQ_CST) == r && !f_quit) if (++sp_ > 20000) { sched_yield (); sp_ = 0; } }
 		if (f_quit) break;
 		r = __atomic_load_n (&f_round, __ATOMIC_SEQ_CST);
 		p_mutex_lock (mx);
